@@ -2,6 +2,8 @@
 #include "ku.h"
 #include "ref/ref_sig.h"
 #include <ksi/policy.h>
+#include <ksi/signature_builder.h>
+#include <ksi/impl/signature_impl.h>
 
 static KSI_CTX *ctx;
 
@@ -493,6 +495,102 @@ static void part_selfcheck(void) {
 	}
 }
 
+/* ------------------------------------------------------------------ the signature builder hands out only what its internal verification accepts - also at the
+ * SECOND close of a builder whose first close was refused and whose components were changed in between */
+static KSI_Signature *parse_plain(const rsig *m) {
+	vbuf b;
+	KSI_Signature *sig = NULL;
+	vb_init(&b);
+	rs_serialize(m, &b);
+	if (KSI_Signature_parseWithPolicy(ctx, b.p, b.n, KSI_VERIFICATION_POLICY_EMPTY, NULL, &sig) != KSI_OK || sig == NULL) vf_harness_error("builder part: fixture signature refused");
+	vb_free(&b);
+	return sig;
+}
+static void part_builder(void) {
+	int nch, scen;
+	for (nch = 2; nch <= 3; nch++) for (scen = 0; scen < 4; scen++) {
+		rs_params p, q;
+		rsig m, other;
+		KSI_Signature *src, *osrc, *out = NULL;
+		KSI_SignatureBuilder *b = NULL;
+		vbuf want;
+		unsigned char *raw = NULL;
+		size_t rl = 0, i, nc;
+		int res, r1;
+		if (!vf_case_begin("builder:chains%d:%s", nch, scen == 0 ? "complete" : scen == 1 ? "chain-missing-then-added" : scen == 2 ? "level-refused-then-closed" : "level-refused-then-foreign-calendar")) continue;
+		rs_default_params(&p);
+		p.nchains = nch; p.tail = 3; p.aggr_time = T_2024; p.pub_time = T_2024 + 86400 * 11 + 17;
+		for (i = 0; i < (size_t)nch; i++) { p.nlinks[i] = 2; p.chain_alg[i] = RH_SHA256; p.link_desc[i][0] = mkdesc((int)i & 1, 0, i == 0 ? 2 : 0); p.link_desc[i][1] = mkdesc(1, 0, 0); }
+		rs_build(&m, &p);
+		q = p; q.doc_seed += 77; q.aggr_time = T_2024 + 5; q.pub_time = T_2024 + 86400 * 12 + 3;
+		rs_build(&other, &q);
+		src = parse_plain(&m); osrc = parse_plain(&other);
+		vb_init(&want);
+		rs_serialize(&m, &want);
+		if (KSI_SignatureBuilder_open(ctx, &b) != KSI_OK) vf_harness_error("KSI_SignatureBuilder_open");
+		nc = KSI_AggregationHashChainList_length(src->aggregationChainList);
+		for (i = 0; i < nc; i++) {
+			KSI_AggregationHashChain *ch = NULL;
+			KSI_AggregationHashChainList_elementAt(src->aggregationChainList, i, &ch);
+			if (scen == 1 && i == nc - 1) continue;                 /* the top chain is left out at first */
+			if (KSI_SignatureBuilder_addAggregationChain(b, ch) != KSI_OK) vf_harness_error("addAggregationChain");
+		}
+		if (scen <= 1) {
+			if (KSI_SignatureBuilder_setCalendarHashChain(b, src->calendarChain) != KSI_OK || KSI_SignatureBuilder_setCalendarAuthRecord(b, src->calendarAuthRec) != KSI_OK) vf_harness_error("calendar parts");
+		}
+		vf_count("impl_calls", 3);
+		if (scen == 0) {
+			res = KSI_SignatureBuilder_close(b, 0, &out);
+			if (res != KSI_OK || out == NULL) vf_fail("consistent-not-ok", "builder: a consistent signature assembled from its parts is refused by KSI_SignatureBuilder_close: 0x%x", res);
+		} else if (scen == 1) {
+			KSI_AggregationHashChain *top = NULL;
+			r1 = KSI_SignatureBuilder_close(b, 0, &out);
+			if (r1 == KSI_OK || out != NULL) { vf_fail("inconsistent-ok", "builder: close succeeded although the chain that leads to the calendar is missing"); KSI_Signature_free(out); out = NULL; }
+			KSI_AggregationHashChainList_elementAt(src->aggregationChainList, nc - 1, &top);
+			if (KSI_SignatureBuilder_addAggregationChain(b, top) != KSI_OK) vf_harness_error("addAggregationChain (late)");
+			res = KSI_SignatureBuilder_close(b, 0, &out);
+			if (res != KSI_OK || out == NULL) vf_fail("consistent-not-ok", "builder: after the missing chain was added the second KSI_SignatureBuilder_close still fails with 0x%x (the first close was refused with 0x%x)", res, r1);
+		} else {
+			r1 = KSI_SignatureBuilder_close(b, 300, &out);
+			if (r1 == KSI_OK || out != NULL) { vf_fail("inconsistent-ok", "builder: close with root level 300 succeeded"); KSI_Signature_free(out); out = NULL; }
+			if (scen == 2) {
+				if (KSI_SignatureBuilder_setCalendarHashChain(b, src->calendarChain) != KSI_OK || KSI_SignatureBuilder_setCalendarAuthRecord(b, src->calendarAuthRec) != KSI_OK) vf_harness_error("calendar parts (late)");
+				res = KSI_SignatureBuilder_close(b, 0, &out);
+				if (res != KSI_OK || out == NULL) vf_fail("consistent-not-ok", "builder: after a refused close(level 300) and adding the calendar parts, close(0) of the consistent signature fails with 0x%x", res);
+			} else {
+				/* the calendar chain of ANOTHER signature: its input is not this signature's aggregation root */
+				if (KSI_SignatureBuilder_setCalendarHashChain(b, osrc->calendarChain) != KSI_OK || KSI_SignatureBuilder_setCalendarAuthRecord(b, osrc->calendarAuthRec) != KSI_OK) vf_harness_error("foreign calendar parts");
+				res = KSI_SignatureBuilder_close(b, 0, &out);
+				if (res == KSI_OK || out != NULL) vf_fail("inconsistent-ok", "builder: close succeeded for aggregation chains combined with another signature's calendar chain (first close had been refused with 0x%x)", r1);
+				vf_outcome("builder:foreign-calendar:%s", res == KSI_OK ? "OK" : "refused");
+			}
+		}
+		vf_count("impl_calls", 2);
+		if (out != NULL && scen != 3) {
+			/* what is handed out is the signature the parts came from: typed fields and stored form agree */
+			if (KSI_Signature_serialize(out, &raw, &rl) != KSI_OK) vf_fail("unserializable", "builder: result cannot be serialized");
+			else {
+				rsig got;
+				vbuf g;
+				vb_init(&g);
+				if (rs_parse(raw, rl, &got) != 0) vf_fail("wellformed-rejected", "builder: the serialized result is not understood by the reference parser");
+				else {
+					rs_serialize(&got, &g);
+					if (g.n != want.n || memcmp(g.p, want.p, g.n) != 0) vf_fail("builder-result-differs", "builder (%d chains, scenario %d): the serialized result differs from the signature its parts were taken from (%zu vs %zu bytes; calendar chain %s, authentication record %s)", nch, scen, g.n, want.n, got.has_cal ? "present" : "MISSING", got.has_auth ? "present" : "MISSING");
+					else vf_outcome("builder:result-identical");
+				}
+				vb_free(&g);
+			}
+			KSI_free(raw);
+		}
+		KSI_Signature_free(out);
+		KSI_SignatureBuilder_free(b);
+		KSI_Signature_free(src); KSI_Signature_free(osrc);
+		vb_free(&want);
+		vf_case_end(1);
+	}
+}
+
 static void run(void) {
 	ctx = ku_ctx();
 	part_selfcheck();
@@ -501,6 +599,7 @@ static void run(void) {
 	part_single();
 	part_pairs();
 	part_bytes();
+	part_builder();
 	KSI_CTX_free(ctx);
 }
 
